@@ -514,3 +514,6 @@ func verifLemmaReserveKnownNeedConservation(req models.ChfConvergedChargingCharg
 func verifLemmaReserveNewNeedConservation(req models.ChfConvergedChargingChargingDataRequest) ([]models.MultipleUnitInformation, bool) {
 	return sessionChargingReservation(req)
 }
+
+// SpecGhostWrites exposes the response counter to the contracts of the routes in package sbi.
+func SpecGhostWrites() int { return ghostHttpWrites }
